@@ -15,6 +15,9 @@ ASSUMPTIONS = [
     ">= 2 cycles after the previous one must have completed",
     "read-back: captured_sample_number is held for two cycles and captured_sample is taken in the second one (read "
     "latency of 0 or 1 cycle)",
+    "a reader may present captured_sample_number at any time (also before or in the very cycle in which complete "
+    "rises, e.g. the address left over from the previous read-out); a read counts as 'after the capture' when complete "
+    "is high in both cycles of the two-cycle read",
 ]
 
 DEPTHS = [1, 2, 3, 4, 5, 7, 8, 9, 16, 17, 31, 32, 33, 64, 70]
@@ -43,7 +46,11 @@ class IlaSub(Sub):
             "wide) at a generated cycle, extra trigger pulses inside the capture, then every sample read back in a "
             "generated order while the inputs keep changing; oracle: the read-back equals depth consecutive input values "
             "starting at T-pretrigger (+0 or +1), complete low during the capture and high afterwards until the next "
-            "trigger; non-trivial = a trigger inside the capture AND the candidate windows at offsets -1,0,+1,+2 are "
+            "trigger; captured_sample_number is additionally parked on a generated index (last / first / any) from the "
+            "trigger cycle or from a cycle around the end of the capture (T+depth .. T+depth+2) until the read-back, and "
+            "in EVERY cycle t of the run with complete high in t-1 and t and the same sample number n in t-1 and t, "
+            "captured_sample must be sample n of the reading that explains the capture (so a read issued in the first "
+            "cycle of complete, or already pending when it rises, is judged too); non-trivial = a trigger inside the capture AND the candidate windows at offsets -1,0,+1,+2 are "
             "pairwise different (an off-by-one would be visible)")
 
     def setup(self):
@@ -63,6 +70,10 @@ class IlaSub(Sub):
                 extra=st.lists(st.one_of(st.integers(1, max(1, depth)), st.just(depth)), max_size=3),   # extra triggers at T+x (T+depth = last sampling cycle)
                 order=st.sampled_from(["up", "down", "stride"]),
                 seed=st.integers(0, 10 ** 6),
+                # address parked during / around the end of the capture: [which index, from which cycle]
+                park=st.one_of(st.none(), st.tuples(
+                    weighted([("last", 3), ("first", 1), ("any", 2)]),
+                    weighted([("trigger", 2), ("end-1", 1), ("end", 2), ("end+1", 1)])).map(list)),
             ))
             return st.fixed_dictionaries(dict(
                 cfg=st.just(ci),
@@ -82,6 +93,7 @@ class IlaSub(Sub):
 
         script = []
         plan = []
+        addr_at = []                  # captured_sample_number applied in every cycle
 
         def emit(trigger=0, addr=None):
             t = len(script)
@@ -89,18 +101,24 @@ class IlaSub(Sub):
             vec = dict(trigger=trigger, a=v & 0xFF, b=(v >> 8) & 1, c=(v >> 9) & 7)
             if addr is not None:
                 vec["addr"] = addr
+            addr_at.append(addr if addr is not None else (addr_at[-1] if addr_at else 0))
             script.append(vec)
             return t
 
         for cap in case["captures"]:
             for _ in range(cap["lead"]):
                 emit()
-            T = emit(trigger=1)
+            park = cap.get("park")
+            park_n = park_k = None
+            if park:
+                park_n = {"last": depth - 1, "first": 0}.get(park[0], (cap["seed"] // 7) % depth)
+                park_k = {"trigger": 0, "end-1": depth, "end": depth + 1, "end+1": depth + 2}[park[1]]
+            T = emit(trigger=1, addr=park_n if park_k == 0 else None)
             extras = sorted({x for x in cap["extra"] if 1 <= x <= depth})
             trig_cycles = set(range(1, cap["width"])) & set(range(1, depth)) | set(extras)
             # capture + completion slack
             for k in range(1, depth + 1 + COMPLETE_SLACK + 1):
-                emit(trigger=int(k in trig_cycles))
+                emit(trigger=int(k in trig_cycles), addr=park_n if k == park_k else None)
             done_by = len(script) - 1
             if cap["order"] == "up":
                 order = list(range(depth))
@@ -113,9 +131,11 @@ class IlaSub(Sub):
             for n in order:
                 emit(addr=n)
                 reads.append((n, emit(addr=n)))
-            plan.append(dict(T=T, in_capture=sorted(trig_cycles), done_by=done_by, reads=reads))
+            plan.append(dict(T=T, in_capture=sorted(trig_cycles), done_by=done_by, reads=reads,
+                             park=None if not park else (park_n, T + park_k)))
         emit()
         trace = self.harness(case["cfg"]).run_script(script)
+        addr_at += [addr_at[-1]] * (len(trace) - len(addr_at))
 
         labels = {f"pre={pre}", "depth=1" if depth == 1 else ("depth<=9" if depth <= 9 else "depth>9")}
         nontrivial = False
@@ -157,6 +177,29 @@ class IlaSub(Sub):
                             f"matches neither inputs[T-pre ..] nor inputs[T-pre+1 ..]; closest reading (+{best}) differs at "
                             f"sample indices {bad[:8]}: got {[hex(got[n]) for n in bad[:4]]} expected "
                             f"{[hex(windows[best][n]) for n in bad[:4]]}", signature=sig)
+            # every read made while complete is high -- not only the ordered read-back above -- returns the sample
+            readings = [o for o in (0, 1) if got == windows[o]]
+            rose = None
+            for t in range(T + 2, end + 2 if ci + 1 < len(plan) else len(trace)):
+                if not trace[t - 1].complete:
+                    continue
+                if rose is None:
+                    rose = t - 1
+                n = addr_at[t]
+                if not trace[t].complete or addr_at[t - 1] != n:
+                    continue
+                if all(trace[t].data != windows[o][n] for o in readings):
+                    return fail(f"{cfg}: capture {ci} triggered in cycle {T} (extra triggers at T+{p['in_capture']}): "
+                                f"complete high since cycle {rose}; captured_sample_number={n} in cycles {t - 1} and {t} "
+                                f"(complete high in both) but captured_sample={trace[t].data:#x} in cycle {t}, expected "
+                                f"sample {n} = {' or '.join(hex(windows[o][n]) for o in readings)} (the later ordered "
+                                f"read-back returned the right value)",
+                                signature="readback-wrong-just-after-complete" if t - rose <= 2
+                                else "readback-wrong-while-complete")
+            if p.get("park"):
+                labels.add("addr-parked-last" if p["park"][0] == depth - 1 else "addr-parked-other")
+                if rose is not None and p["park"][1] <= rose:
+                    labels.add("read-pending-when-complete-rises")
             distinct = len({tuple(w) for w in windows.values()}) == 4
             if p["in_capture"]:
                 labels.add("trigger-during-capture")
